@@ -50,6 +50,7 @@ type AccountingManager struct {
 
 	// Persistence path
 	persistPath string
+	persistMu   sync.Mutex // serialises writes of session files
 
 	running int32
 }
@@ -113,6 +114,10 @@ type AccountingSession struct {
 	// Stop pending flag (for crash recovery)
 	StopPending bool
 	StopCause   uint32
+
+	// Start pending flag (for crash recovery): true until the server has
+	// acknowledged the Accounting-Start
+	StartPending bool
 }
 
 // PendingAcctRecord represents a pending accounting record that needs to be sent
@@ -278,9 +283,14 @@ func (am *AccountingManager) StartSession(session *AccountingSession) error {
 	}
 	session.StartTime = time.Now()
 	session.LastInterimTime = time.Now()
+	session.StartPending = true
 
 	am.sessions[session.SessionID] = session
 	am.sessionsMu.Unlock()
+
+	// Persist the session before the server hears of it: a crash right after
+	// the Start has been acknowledged must still lead to a Stop on restart.
+	am.persistActiveSession(session)
 
 	// Send Accounting-Start
 	req := &AcctRequest{
@@ -306,11 +316,18 @@ func (am *AccountingManager) StartSession(session *AccountingSession) error {
 			zap.String("session_id", session.SessionID),
 			zap.Error(err),
 		)
+	} else {
+		am.sessionsMu.Lock()
+		session.StartPending = false
+		am.sessionsMu.Unlock()
 	}
 
 	verifPoint("start:after-send")
-	// Persist session for crash recovery
+	// Persist session for crash recovery (under the lock: the queue processor
+	// rewrites the file when it delivers a queued Start)
+	am.sessionsMu.Lock()
 	am.persistActiveSession(session)
+	am.sessionsMu.Unlock()
 	verifPoint("start:persisted")
 
 	am.logger.Info("Accounting started for session",
@@ -608,6 +625,18 @@ func (am *AccountingManager) pendingRecordProcessor() {
 	}
 }
 
+// markStartDelivered records (durably) that the queued Start of a session has
+// been acknowledged. Nothing happens if the session has ended meanwhile.
+func (am *AccountingManager) markStartDelivered(sessionID string) {
+	am.sessionsMu.Lock()
+	defer am.sessionsMu.Unlock()
+	if session, exists := am.sessions[sessionID]; exists && session.StartPending {
+		session.StartPending = false
+		// under the lock: StopSession removes the file after the map entry
+		am.persistActiveSession(session)
+	}
+}
+
 // hasPendingStart reports whether the Accounting-Start of a session is still
 // in the retry queue
 func (am *AccountingManager) hasPendingStart(sessionID string) bool {
@@ -647,6 +676,8 @@ func (am *AccountingManager) processPendingRecord(record *PendingAcctRecord) {
 		am.pendingMu.Unlock()
 
 		switch record.Request.StatusType {
+		case AcctStatusStart:
+			am.markStartDelivered(record.Request.SessionID)
 		case AcctStatusStop:
 			atomic.AddUint64(&am.stopTotal, 1)
 		case AcctStatusInterimUpdate:
@@ -818,13 +849,24 @@ func (am *AccountingManager) persistActiveSession(session *AccountingSession) {
 		return
 	}
 
+	am.persistMu.Lock()
+	defer am.persistMu.Unlock()
+
 	data, err := json.Marshal(session)
 	if err != nil {
 		am.logger.Debug("Failed to marshal session for persistence", zap.Error(err))
 		return
 	}
 
-	if err := os.WriteFile(path, data, 0600); err != nil {
+	// Write and rename: the file is rewritten while the session is live, and a
+	// crash in the middle must not leave half a file (it would be discarded as
+	// corrupt on recovery and the session's Stop lost).
+	tmp := path + ".tmp"
+	if err := os.WriteFile(tmp, data, 0600); err != nil {
+		am.logger.Debug("Failed to persist session", zap.Error(err))
+		return
+	}
+	if err := os.Rename(tmp, path); err != nil {
 		am.logger.Debug("Failed to persist session", zap.Error(err))
 	}
 }
@@ -990,6 +1032,22 @@ func (am *AccountingManager) recoverOrphanedSessions() error {
 			SessionTime:    uint32(time.Since(session.StartTime).Seconds()),
 			TerminateCause: terminateCause,
 			Class:          session.Class,
+		}
+
+		if session.StartPending && !am.hasPendingStart(session.SessionID) {
+			// The previous instance died before it learned whether the server
+			// has the Start: send it (again) ahead of the Stop.
+			am.queuePendingRecord(&AcctRequest{
+				SessionID:  session.SessionID,
+				Username:   session.Username,
+				MAC:        session.MAC,
+				FramedIP:   session.FramedIP,
+				NASPort:    session.NASPort,
+				StatusType: AcctStatusStart,
+				Class:      session.Class,
+				CircuitID:  session.CircuitID,
+				RemoteID:   session.RemoteID,
+			})
 		}
 
 		if am.hasPendingStart(session.SessionID) {
